@@ -118,6 +118,14 @@ func writeReplay(e *Engine, prop string, g *groupResult) replayInfo {
 		"detail":     g.Detail,
 	}
 	reproduced := false
+	if g.frameFn != nil {
+		rr := frameReplay(e, g)
+		rec["replay"] = rr
+		if ok, _ := rr["reproduced"].(bool); ok {
+			reproduced = true
+		}
+		rec["failing_query"] = g.Name
+	}
 	for _, o := range g.obls {
 		if o.res.status == "sat" && !o.expectSat {
 			rec["failing_query"] = o.name
